@@ -73,6 +73,11 @@ def uses_free(ctx, entry_q: str) -> bool:
                     m_ = ctx.p.lookup_method("sampling.sampler", n.attr)      # own or inherited (mixin / base class)
                     if m_ is not None:
                         work.append(m_)
+            elif isinstance(n, ast.Name) and isinstance(n.ctx, ast.Load):
+                # a module-level function of the sampler's module called (or passed on) by name
+                m_ = ctx.p.functions.get(f"{fi.module}.{n.id}")
+                if m_ is not None and getattr(m_, "node", None) is not None:
+                    work.append(m_)
     return False
 
 
@@ -147,6 +152,23 @@ def run(ctx):
                    "len(neighbors) >= 1")
 
 
+def _private_sampler_kernel(p, label: str) -> bool:
+    """A module-level function of the sampler's module that nothing outside that module names: it can only be entered
+    from the sampler's own code, i.e. on the paths the typestate runs (TS-3) follow from the entry points."""
+    parts = label.split(".")
+    if len(parts) < 2 or parts[0] != "sampling" or parts[1] not in p.modules["sampling"].functions:
+        return False
+    nm = parts[1]
+    for mname, mod in p.modules.items():
+        if mname == "sampling":
+            continue
+        for nd in ast.walk(mod.tree):
+            if (isinstance(nd, ast.Name) and nd.id == nm) or (isinstance(nd, ast.Attribute) and nd.attr == nm) or \
+                    (isinstance(nd, ast.alias) and nd.name == nm):
+                return False
+    return True
+
+
 def ts0(ctx, entries: List[str]):
     """Who may call a step function / who hands prop_data to what."""
     p = ctx.p
@@ -166,7 +188,7 @@ def ts0(ctx, entries: List[str]):
                        for c, _ in cands):
                 continue
             label = fi.qualname if fi else e.frame.label
-            ok = label.startswith(allowed_prefix)
+            ok = label.startswith(allowed_prefix) or _private_sampler_kernel(p, label)
             ctx.rep.ob("TS-0", f"{label}: calls step function .{f.args[1]}", ok,
                        "step functions may only be entered from the sampler's step scans (their "
                        "entry requires a coherent cache)" if not ok else "inside a step scan",
